@@ -35,12 +35,21 @@ Definition struct_same (a b : nodelist) : bool :=
   && nodelist_eqb {| nl_nodes := []; nl_edges := canon_edges (nl_edges a); nl_root_elements := [] |}
                   {| nl_nodes := []; nl_edges := canon_edges (nl_edges b); nl_root_elements := [] |}.
 
-Inductive case08x := One (c : case08) | Frame (before after : nodelist).
+Inductive case08x :=
+  | One (c : case08)
+  | Frame (before after : nodelist)
+  | SelfRel (before : nodelist) (at_ : string) (t : Z) (outcome : Z) (after : nodelist).
 
 Definition case_ok_x (c : case08x) : bool :=
   match c with
   | One c => case_ok c
   | Frame b a => struct_same b a
+  | SelfRel b at_ t o a =>
+      match relate_self_at b at_ t with
+      | Ok l' => Z.eqb o 0 && nl_same l' a
+      | Err => Z.eqb o 1
+      | _ => false
+      end
   end.
 
 Definition mismatches_x (cs : list case08x) : list nat := failing case_ok_x cs.
